@@ -23,9 +23,15 @@ type Result = std::result::Result<ArrayImpl, ConvertError>;
 impl ArrayImpl {
     pub fn neg(&self) -> Result {
         Ok(match self {
-            A::Int16(a) => A::new_int16(unary_op(a.as_ref(), |v| -v)),
-            A::Int32(a) => A::new_int32(unary_op(a.as_ref(), |v| -v)),
-            A::Int64(a) => A::new_int64(unary_op(a.as_ref(), |v| -v)),
+            A::Int16(a) => A::new_int16(try_unary_op(a.as_ref(), |v| {
+                v.checked_neg().ok_or(ConvertError::IntegerOverflow("-"))
+            })?),
+            A::Int32(a) => A::new_int32(try_unary_op(a.as_ref(), |v| {
+                v.checked_neg().ok_or(ConvertError::IntegerOverflow("-"))
+            })?),
+            A::Int64(a) => A::new_int64(try_unary_op(a.as_ref(), |v| {
+                v.checked_neg().ok_or(ConvertError::IntegerOverflow("-"))
+            })?),
             A::Float64(a) => A::new_float64(unary_op(a.as_ref(), |v| -v)),
             A::Decimal(a) => A::new_decimal(unary_op(a.as_ref(), |v| -v)),
             _ => return Err(ConvertError::NoUnaryOp("-".into(), self.type_string())),
@@ -50,23 +56,23 @@ impl ArrayImpl {
 
 /// A macro to implement arithmetic operations.
 macro_rules! arith {
-    ($name:ident, $op:tt) => {
+    ($name:ident, $op:tt, $checked:path) => {
         pub fn $name(
             &self,
             other: &Self,
         ) -> Result {
         Ok(match (self, other) {
-            (A::Int16(a), A::Int16(b)) => A::new_int16(binary_op(a.as_ref(), b.as_ref(), |a, b| a $op b)),
+            (A::Int16(a), A::Int16(b)) => A::new_int16(try_binary_op(a.as_ref(), b.as_ref(), stringify!($op), |a, b| $checked(&*a, &*b))?),
 
-            (A::Int16(a), A::Int32(b)) => A::new_int32(binary_op(a.as_ref(), b.as_ref(), |a, b| (*a as i32) $op *b)),
-            (A::Int32(a), A::Int16(b)) => A::new_int32(binary_op(a.as_ref(), b.as_ref(), |a, b| *a $op (*b as i32))),
-            (A::Int32(a), A::Int32(b)) => A::new_int32(binary_op(a.as_ref(), b.as_ref(), |a, b| a $op b)),
+            (A::Int16(a), A::Int32(b)) => A::new_int32(try_binary_op(a.as_ref(), b.as_ref(), stringify!($op), |a, b| $checked(&(*a as i32), &*b))?),
+            (A::Int32(a), A::Int16(b)) => A::new_int32(try_binary_op(a.as_ref(), b.as_ref(), stringify!($op), |a, b| $checked(&*a, &(*b as i32)))?),
+            (A::Int32(a), A::Int32(b)) => A::new_int32(try_binary_op(a.as_ref(), b.as_ref(), stringify!($op), |a, b| $checked(&*a, &*b))?),
 
-            (A::Int16(a), A::Int64(b)) => A::new_int64(binary_op(a.as_ref(), b.as_ref(), |a, b| (*a as i64) $op *b)),
-            (A::Int32(a), A::Int64(b)) => A::new_int64(binary_op(a.as_ref(), b.as_ref(), |a, b| (*a as i64) $op *b)),
-            (A::Int64(a), A::Int16(b)) => A::new_int64(binary_op(a.as_ref(), b.as_ref(), |a, b| *a $op (*b as i64))),
-            (A::Int64(a), A::Int32(b)) => A::new_int64(binary_op(a.as_ref(), b.as_ref(), |a, b| *a $op (*b as i64))),
-            (A::Int64(a), A::Int64(b)) => A::new_int64(binary_op(a.as_ref(), b.as_ref(), |a, b| a $op b)),
+            (A::Int16(a), A::Int64(b)) => A::new_int64(try_binary_op(a.as_ref(), b.as_ref(), stringify!($op), |a, b| $checked(&(*a as i64), &*b))?),
+            (A::Int32(a), A::Int64(b)) => A::new_int64(try_binary_op(a.as_ref(), b.as_ref(), stringify!($op), |a, b| $checked(&(*a as i64), &*b))?),
+            (A::Int64(a), A::Int16(b)) => A::new_int64(try_binary_op(a.as_ref(), b.as_ref(), stringify!($op), |a, b| $checked(&*a, &(*b as i64)))?),
+            (A::Int64(a), A::Int32(b)) => A::new_int64(try_binary_op(a.as_ref(), b.as_ref(), stringify!($op), |a, b| $checked(&*a, &(*b as i64)))?),
+            (A::Int64(a), A::Int64(b)) => A::new_int64(try_binary_op(a.as_ref(), b.as_ref(), stringify!($op), |a, b| $checked(&*a, &*b))?),
 
             (A::Int16(a), A::Float64(b)) => A::new_float64(binary_op(a.as_ref(), b.as_ref(), |a, b| F64::from(*a as f64) $op *b)),
             (A::Int32(a), A::Float64(b)) => A::new_float64(binary_op(a.as_ref(), b.as_ref(), |a, b| F64::from(*a as f64) $op *b)),
@@ -145,11 +151,11 @@ macro_rules! cmp {
 }
 
 impl ArrayImpl {
-    arith!(add, +);
-    arith!(sub, -);
-    arith!(mul, *);
-    arith!(unchecked_div, /);
-    arith!(unchecked_rem, %);
+    arith!(add, +, num_traits::CheckedAdd::checked_add);
+    arith!(sub, -, num_traits::CheckedSub::checked_sub);
+    arith!(mul, *, num_traits::CheckedMul::checked_mul);
+    arith!(unchecked_div, /, num_traits::CheckedDiv::checked_div);
+    arith!(unchecked_rem, %, checked_rem_total);
     cmp!(eq, ==);
     cmp!(ne, !=);
     cmp!(gt,  >);
@@ -866,6 +872,37 @@ where
     F: Fn(&A::Item) -> V,
 {
     O::from_data(a.raw_iter().map(f), a.get_valid_bitmap().clone())
+}
+
+/// Integer arithmetic: computed on valid slots only; a result outside the type is an error.
+fn try_binary_op<A, B, O, F>(
+    a: &A,
+    b: &B,
+    op: &'static str,
+    f: F,
+) -> std::result::Result<O, ConvertError>
+where
+    A: Array,
+    B: Array,
+    O: Array,
+    O::Item: Sized,
+    F: Fn(&A::Item, &B::Item) -> Option<O::Item>,
+{
+    assert_eq!(a.len(), b.len());
+    let mut builder = O::Builder::with_capacity(a.len());
+    for e in a.iter().zip(b.iter()) {
+        if let (Some(a), Some(b)) = e {
+            builder.push(Some(&f(a, b).ok_or(ConvertError::IntegerOverflow(op))?));
+        } else {
+            builder.push(None);
+        }
+    }
+    Ok(builder.finish())
+}
+
+/// `a % b` for a non-zero `b` (zero divisors are safened away): `MIN % -1` is 0, not an overflow.
+fn checked_rem_total<T: num_traits::CheckedRem + num_traits::Zero>(a: &T, b: &T) -> Option<T> {
+    Some(a.checked_rem(b).unwrap_or_else(T::zero))
 }
 
 fn try_unary_op<A, O, F, V, E>(a: &A, f: F) -> std::result::Result<O, E>
